@@ -437,5 +437,6 @@ func TestCheck(t *testing.T) {
 		big = 4 << 20
 	}
 	vlib.RunCheck(r, vlib.Check[Case]{Name: "roundtrip", N: r.Pick(40000, 600000), Gen: gen(big), Run: runCase})
+	vlib.RunCheck(r, vlib.Check[PathCase]{Name: "paths", N: r.Pick(500, 10000), Gen: genPath, Run: runPath, Confirm: true, RecordCurrent: true})
 	r.Finish()
 }
